@@ -90,7 +90,7 @@ S_PARTS = ["an entry point's scoring SQL differs from the model's generators / i
 
 
 def gen_case(rng, backend, exact=False):
-    allow_inf = backend == "duckdb"
+    allow_inf = True       # u = 0 levels on DuckDB and SQLite
     if exact:
         spec = G.gen_spec(rng, "P2", allow_inf=False, ncmp=rng.choice([1, 2, 3]))
     else:
